@@ -8,8 +8,9 @@ Conventions.  `usize`/`u64` values are `Nat`; every arithmetic step that can wra
 release build is written with the explicit modulus (`as u32` → `% 2^32`, `as u16` and `u16 +=` →
 `% 2^16`, `u64`/`usize` `+=` → `% 2^64`, `u128 <<` → `BitVec 128` shift).  Subtractions that
 would underflow in Rust are written with `Nat` subtraction; `Proof/BitVec.lean` proves for each of
-them that the subtrahend is never larger (`rank1_le`, `ones_le_len`, `jumpTo_le`), so the truncated
-subtraction is never taken on a built vector.  The 128-bit rank entries are `BitVec 128` (= `u128`).
+them that the subtrahend is never larger (`rank0_exact_aux`, `count_exact_aux`,
+`jumpTo_buildSelect`; restated in Props/C01), so the truncated subtraction is never taken on a built
+vector.  The 128-bit rank entries are `BitVec 128` (= `u128`).
 Slices are `List`s; indexing that Rust bounds-checks uses `getD` and the proofs show the index is in
 range.  A panic (`assert!`) is the `none` of the outer `Option`.
 
@@ -131,7 +132,8 @@ deriving Repr
 
 /-- `while next_sample < total_ones && count + pop > next_sample { push; next_sample += rate }`.
 Returns the samples pushed (in order) and the final `next_sample`.  The fuel is the number of
-iterations allowed; `pop + 1` always suffices (proved: the result does not depend on more). -/
+iterations allowed; `pop + 1` always suffices (`sampleWhile_spec`: with that fuel the loop has left
+through its condition, because `count ≤ next_sample` and `rate ≥ 1`). -/
 def sampleWhile (total cnt pop rate wordIdx : Nat) : Nat → Nat → List Sample × Nat
   | 0, next => ([], next)
   | fuel + 1, next =>
